@@ -112,6 +112,11 @@ def candidates(desc, rng):
         out.append({'type': 'thickness', 'surface_number': k})
         if s['material']['kind'] == 'ideal':
             out.append({'type': 'index', 'surface_number': k, 'wavelength': W0})
+        if s['material']['kind'] == 'mirror' and k >= 2 and surfs[k - 1]['material']['kind'] == 'ideal':
+            # immersed (Mangin) mirror: the factory gives the mirror one medium object for both sides, the same
+            # object as the medium behind the previous surface; an index variable on the mirror and one on the
+            # surface in front of it are two handles that must stay independent
+            out.append({'type': 'index', 'surface_number': k, 'wavelength': W0, 'mangin': True})
         if st == 'even_asphere':
             out.append({'type': 'asphere_coeff', 'surface_number': k,
                         'coeff_number': rng.randrange(len(s['coefficients']))})
@@ -273,6 +278,12 @@ def gen_problem(rng, want_kinds=None, all_bounded=None, nvars=None, paraxial_onl
         rng.shuffle(pool)
         if want_kinds:
             pool.sort(key=lambda c: 0 if c['type'] in want_kinds else 1)
+        mg = [c for c in pool if c.get('mangin')]
+        if mg and rng.random() < 0.7:
+            m = mg[0]
+            partner = [c for c in pool if c['type'] == 'index' and c['surface_number'] == m['surface_number'] - 1]
+            pool = partner + [m] + [c for c in pool if c is not m and c not in partner]
+            nv = max(nv, 2)
         for c in pool:
             if len(vs) >= nv:
                 break
